@@ -63,7 +63,11 @@ def run(res, proofs_ok, proofs_why):
             "    rec = repeat 0%Z (c_cells current_cfg) \\/\n"
             "    exists a q e, (0 < a)%nat /\\ ev (w_log (m_w m)) q = Some e /\\ e_kind e = KEven /\\ e_att e = a /\\ rec = rec_of (c_cells current_cfg) a.\n"
             "Proof. intros ts m o. apply (C02_RA current_cfg ts m o current_cfg_safe). Qed.\n"
-            "Print Assumptions C02_for_the_running_code.\n")
+            "Definition C02_window_for_the_running_code := fun ts m o => C02_RA_window current_cfg ts m o current_cfg_safe.\n"
+            "Check C02_window_for_the_running_code : forall ts m o, Forall real_token ts -> m_run (m_init current_cfg) ts = (m, o) ->\n"
+            "  run_windows (m_init current_cfg) ts -> forall j ret rec, In (ORet j ret rec) o -> ret <> RetErr ->\n"
+            "  rec = repeat 0%Z (c_cells current_cfg) \\/ published current_cfg (w_log (m_w m)) rec.\n"
+            "Print Assumptions C02_for_the_running_code.\nPrint Assumptions C02_window_for_the_running_code.\n")
     ok, log = _shm.current_obligation(cfg, "C02", body)
     res.oblige("Current_C02.v: safe_cfg current_cfg = true (release fence after the odd store, acquire fence before the re-load, "
                "Release final store, Acquire generation loads, copy orders are permutations)", ok)
@@ -90,7 +94,7 @@ def run(res, proofs_ok, proofs_why):
         if not res.known_finding("C02-aba", "generation wrapped once around (32767 publications, shortened with the J token) inside one snapshot() call of the real reader: accepted %s" % mixed[0]["cells"]):
             res.violation({"property": "C02", "kind": "schedule", "case": {"schedule": _shm.tok_str(toks), "impl": out,
                            "why": ["mixture accepted after a 16-bit generation wrap inside one call, not listed as a known finding"]}})
-    res.assumptions.append("side condition of C02_RA: fewer than 32767 write() calls in the run (16-bit generation ABA, known finding C02-aba)")
+    res.assumptions.append("side condition of C02_RA_window: no snapshot() iteration spans 32767 or more completed publications (16-bit generation ABA, known finding C02-aba); C02_RA is the special case of runs with fewer than 32767 write() calls")
 
 
 def replay(res, path):
